@@ -19,6 +19,8 @@ var ErrShutdown = errors.New("connection is shut down")
 type incarnation struct {
 	handler any
 	alive   bool
+	reset   int  // connections dialled before the latest reset of this server's connections are broken
+	refuse  bool // new connections are refused (the listener is unreachable); established ones keep working
 }
 
 var registry = map[string]*incarnation{}
@@ -46,6 +48,21 @@ type Client struct {
 	in     *incarnation
 	closed bool
 	epoch  int // connections of an older epoch were reset by the network
+	reset  int
+}
+
+// ResetTo breaks every established connection TO addr (the server stays up, new dials succeed).
+func ResetTo(addr string) {
+	if in := registry[addr]; in != nil {
+		in.reset++
+	}
+}
+
+// Refuse makes addr refuse new connections (on) or accept them again; established connections are unaffected.
+func Refuse(addr string, on bool) {
+	if in := registry[addr]; in != nil {
+		in.refuse = on
+	}
 }
 
 var epoch int
@@ -57,10 +74,10 @@ func Blip() { epoch++ }
 func Dial(network, address string) (*Client, error) {
 	vrt.Yield(-6)
 	in := registry[address]
-	if in == nil || !in.alive {
+	if in == nil || !in.alive || in.refuse {
 		return nil, fmt.Errorf("dial %s %s: connection refused", network, address)
 	}
-	return &Client{in: in, epoch: epoch}, nil
+	return &Client{in: in, epoch: epoch, reset: in.reset}, nil
 }
 
 func (c *Client) Close() error {
@@ -74,7 +91,7 @@ func (c *Client) Close() error {
 // Call invokes "Type.Method" on the handler of the incarnation this connection was dialled to.
 func (c *Client) Call(serviceMethod string, args any, reply any) error {
 	vrt.Yield(-6)
-	if c.closed || c.in == nil || !c.in.alive || c.epoch != epoch {
+	if c.closed || c.in == nil || !c.in.alive || c.epoch != epoch || c.reset != c.in.reset {
 		return ErrShutdown
 	}
 	name := serviceMethod
